@@ -235,9 +235,27 @@ func replayCLI(args []string) error {
 		if c.Big {
 			argv = append(argv, "-b")
 		}
-		argv = append(argv, csvPath)
+		// the input is a path: usually a regular file, every sixth case a pipe (/dev/stdin fed by the harness), which can be
+		// read only once and not rewound
+		piped := vrng.Intn(6) == 0
+		if piped {
+			argv = append(argv, "/dev/stdin")
+		} else {
+			argv = append(argv, csvPath)
+		}
 		cctx, cancel := context.WithTimeout(context.Background(), 20*time.Second)
 		cmd := exec.CommandContext(cctx, *bin, argv...)
+		if piped {
+			pr, pw, perr := os.Pipe()
+			if perr != nil {
+				cancel()
+				return perr
+			}
+			cmd.Stdin = pr
+			data := append([]byte{}, csvb.Bytes()...)
+			go func() { pw.Write(data); pw.Close() }()
+			defer pr.Close()
+		}
 		cmd.Env = append(os.Environ(), "TMPDIR="+dir)
 		var stderr bytes.Buffer
 		cmd.Stderr = &stderr
